@@ -36,8 +36,11 @@ let calc t : string =
   | Ok s -> "S " ^ sz (status_num s)
   | Crash -> "CRASH"
 
-let group t : string =
+let group ?(decimal = false) t : string =
   let minimum = f32_of_bits (next_z t) in
+  (* "groupd": the probe configures minimum-complete from the DECIMAL text that follows (through viper and Configure's
+     float32(GetFloat64) conversion); the model is given the float32 bits the generator computed for that decimal *)
+  if decimal then ignore (next t);
   let allowed = next_z t in let now = next_z t in
   let topics = next_list t (fun t ->
     let topic = next_z t in
@@ -56,4 +59,5 @@ let run (line : string) : string =
   match next t with
   | "calc" -> calc t
   | "group" -> group t
+  | "groupd" -> group ~decimal:true t
   | k -> failwith ("drv_eval: unknown case kind " ^ k)
